@@ -60,7 +60,8 @@ func itoa(n int) string {
 
 // Summarize reduces a race report to the two innermost library frames.
 func Summarize(rep string) (summary string, inLibrary bool) {
-	const mod = "github.com/jsightapi/jsight-schema-go-library/"
+	// frames of the root package read "<module>.(*T).M()", of sub-packages "<module>/pkg.F()"
+	const mod = "github.com/jsightapi/jsight-schema-go-library"
 	var frames []string
 	section := ""
 	got := map[string]bool{}
@@ -78,10 +79,10 @@ func Summarize(rep string) (summary string, inLibrary bool) {
 			}
 		case strings.HasPrefix(t, "Goroutine"):
 			section = ""
-		case section != "" && strings.HasPrefix(t, mod) && !strings.Contains(t, "/verifshim."):
+		case section != "" && (strings.HasPrefix(t, mod+"/") || strings.HasPrefix(t, mod+".")) && !strings.Contains(t, "/verifshim."):
 			if !got[section] {
 				got[section] = true
-				fn := strings.TrimPrefix(t, mod)
+				fn := strings.TrimLeft(strings.TrimPrefix(t, mod), "/.")
 				if i := strings.Index(fn, "("); i > 0 && strings.HasSuffix(fn, ")") {
 					fn = strings.TrimSuffix(fn, "()")
 				}
